@@ -528,7 +528,7 @@ def _extract_item(it, repo, extra_sources, region_base, dropped, externals):
     return text, regs, item, src, start
 
 
-def build_unit(template_path, repo, out_path, extra_sources=None, exclude=()):
+def build_unit(template_path, repo, out_path, extra_sources=None, exclude=(), context=()):
     """Generate the Verus unit. Returns a dict describing the extraction."""
     tpl = open(template_path).read()
     # //@include <path relative to the template's directory>
@@ -580,6 +580,12 @@ def build_unit(template_path, repo, out_path, extra_sources=None, exclude=()):
         line += nlines
         continue
     full = "".join(out)
+    if context:
+        # definitions of the source files copied in on demand (module-level
+        # constants an extracted item refers to)
+        ctx = "\n// ---- context copied verbatim from the source files ----\n" + "\n".join(context) + "\n"
+        k = full.rfind("} // verus!")
+        full = full[:k] + ctx + full[k:] if k >= 0 else full + ctx
     with open(out_path, "w") as f:
         f.write(full)
     kinds = {}
